@@ -19,6 +19,9 @@ CHECKS = {
     'C06': ('exploration', 'runtime monitoring of Message.parse: exception-class oracle + executed-line budget (sys.monitoring LINE events) over structure-aware hostile corpora',
             'Every parse call is watched by a line-event counter that aborts it when it exceeds a linear budget (so a non-terminating parse is detected in-process) and its outcome must be a return, InvalidSyntax or UnsupportedCriticalPayload. Corpora: random bytes, all truncations, byte mutations, a grid over every length/next/more/count/critical field at every nesting level incl. two-field combinations, and the same applied to the plaintext of protected messages re-sealed with the right keys (bad padding, non-block ciphertext, IV only).',
             'line budget constants fixed a priori (600 + 20/byte + 5/declared DELETE SPI); two cipher suites; messages up to a few hundred bytes plus random ones up to 4096', '2/C06'),
+    'C07': ('exploration', 'runtime monitoring of Message.to_bytes / Message.parse: reference dissection (hmac + AES-CBC primitive) of every emitted protected message, round-trip equality, tamper-rejection oracle over every octet x bit / truncation / extension / foreign key, and a wire monitor in simulated histories',
+            'All 6 cipher/integrity pairs x every plaintext residue mod 16 and random payload lists: the ICV must be the negotiated truncated HMAC over everything before it, the body IV + whole blocks with a correct Pad Length, nothing but SK in the clear, and parsing must give back the same payloads. 36 representative messages (every exchange kind incl. empty bodies x suite) are tampered at every octet (all 8 bits outside the ciphertext, 3 inside in the quick tier), truncated at every length, extended by 1..32 octets with and without fixing the length fields, and checked under another SK_a / SK_e: the outcome must be a protocol error. Every datagram after IKE_SA_INIT in simulated histories must carry only SK in the clear.',
+            'AES-CBC and HMAC primitives trusted; tampering judged at the Message.parse level', '2/C07'),
     'C08': ('exploration', 'runtime monitoring: Message-ID window automaton and header-stamping monitor fed online with every real main_loop iteration, over exhaustive small and random large deliver/duplicate/drop/late-replay schedules of authentic traffic',
             'For every exchange kind on both roles all schedules of deliver / <=2 duplicates / <=1 drop are enumerated and executed (plus random walks with loss, duplication and late replays of datagrams recorded earlier, incl. towards rekeyed predecessors and successors). The automaton keeps its own record of executed request IDs, accepted response IDs, first reply bytes and emitted requests and flags: execution outside the window or twice, a replay not answered byte-identically from the cache, any effect of an out-of-window message, a response accepted without matching outstanding request, non-consecutive or overlapping own requests, wrong version / SPIs / flags / exchange type / length on any emitted datagram.',
             'honest peers, datagrams copied/delayed/reordered/lost but never modified; duplicate budget 2 and drop budget 1 in the exhaustive part', '2/C08'),
